@@ -25,6 +25,10 @@ const (
 	Line
 	Curve
 	Close
+	// Other: anything else a command list can hold (a command value the format
+	// does not define, carried verbatim in Raw; numbers in Pts): not a move,
+	// line or curve, so it has no end point.
+	Other
 )
 
 // Cmd is one path command; Curve has three points (two control points and
@@ -32,6 +36,7 @@ const (
 type Cmd struct {
 	Kind int
 	Pts  []Point
+	Raw  int // Kind == Other: the command value
 }
 
 // EndPoints returns the end points of the move, line and curve commands.
